@@ -250,7 +250,13 @@ def run(ctx):
     lt = [n for n in ast.walk(dts) if isinstance(n, ast.Dict) and any(isinstance(k, ast.Constant) and k.value == "logicalType" for k in n.keys)]
     lok = False
     for d in lt:
-        dd = {k.value: (v.value if isinstance(v, ast.Constant) else None) for k, v in zip(d.keys, d.values) if isinstance(k, ast.Constant)}
+        dd = {}
+        for k, v in zip(d.keys, d.values):
+            if isinstance(k, ast.Constant):
+                try:
+                    dd[k.value] = prog.fold(avm, v)
+                except NotConst:
+                    dd[k.value] = None
         lok |= dd.get("logicalType") == "timestamp-micros" and dd.get("type") == "long"
     ctx.check(lok, "R13.4", "avro.descriptor_to_schema:datetime", "datetime fields are not declared long/timestamp-micros", dts, "{'type': 'long', 'logicalType': 'timestamp-micros'}")
     ep = prog.resolve_global(avm, "EPOCH")
